@@ -29,6 +29,10 @@ const CHARS: &[&str] = &[
     "é", "ü", "ß", "λ", "Ж", "中", "💥", "😀", "e\u{301}", "\u{200b}", "\u{feff}", "\u{2028}", "\u{a0}",
     // characters of Unicode's numeric classes that are not ASCII digits
     "１", "０", "²", "½", "٣", "Ⅷ", "①", "৪",
+    // characters whose upper / lower case form has another UTF-8 length
+    "ŉ", "ı", "ſ", "ﬁ", "ǰ", "ΐ", "İ", "ß",
+    // Unicode white space that is not a BASIC blank
+    "\u{3000}", "\u{2003}", "\u{85}",
 ];
 
 const WORDS: &[&str] = &[
